@@ -142,7 +142,7 @@ static void compute_outputs(Outs &o, const Input &in, const Input &small, const 
     { double g1 = backend::spectral_radius<true>(a, 0), g2 = backend::spectral_radius<false>(a, 0); vf::Digest d; d.pod(g1); d.pod(g2); o["gershgorin"] = bit(d.h); }
     if (!bit_only) { double p1 = backend::spectral_radius<true>(a, 8); Out q; q.cls = INFO; q.vals.assign(1, p1); o["power_radius"] = q; }
     // --- aggregates
-    { coarsening::plain_aggregates::params ap; coarsening::plain_aggregates ag(a, ap); vf::Digest d; uint64_t c = ag.count; d.pod(c); d.vec(ag.id); d.vec(ag.strong_connection); o["plain_aggregates"] = bit(d.h); }
+    { coarsening::plain_aggregates::params ap; coarsening::plain_aggregates ag(a, ap); vf::Digest d; uint64_t c = ag.count; d.pod(c); d.vec(ag.id); { uint64_t ns = ag.strong_connection.size(); d.pod(ns); for (size_t q = 0; q < ag.strong_connection.size(); ++q) { char b = ag.strong_connection[q] ? 1 : 0; d.pod(b); } }   /* element-wise: independent of the container type of the public flag array */ o["plain_aggregates"] = bit(d.h); }
     // --- hierarchies.  An exception of a bitwise-class construction is itself an output that must not depend on the thread count; for the
     // rounding class (energy minimisation: a last-bit change of omega can decide whether skyline_lu meets an exactly zero pivot) it is recorded only.
     auto hier = [&](const std::string &coars, const std::string &name, const ptree &p, bool bitclass) {
